@@ -23,6 +23,11 @@ pub enum QOp {
     /// peek_front_chunk_mut, pop `n` chars from the chunk, caller removes it when empty
     ChunkMut { n: usize },
     IsEmpty,
+    /// push_front the run `pop_except_from` handed out last (or a clone of it): un-reading. The
+    /// run is a zero-copy slice of a buffer that may still be in the queue
+    Unread,
+    /// marker, not an operation: measure the buffer partition at the end only (see `run_ops`)
+    Quiet,
     /// swap_with a second queue
     Swap,
     /// replace_with a clone of the second queue
@@ -41,6 +46,8 @@ impl QOp {
             QOp::PopFront => json!({"op": "pop_front"}),
             QOp::ChunkMut { n } => json!({"op": "chunk_mut", "n": n}),
             QOp::IsEmpty => json!({"op": "is_empty"}),
+            QOp::Unread => json!({"op": "unread_last_run"}),
+            QOp::Quiet => json!({"op": "quiet"}),
             QOp::Swap => json!({"op": "swap_with"}),
             QOp::ReplaceWithOther => json!({"op": "replace_with"}),
         }
@@ -56,6 +63,8 @@ impl QOp {
             "eat" => QOp::Eat { pat: s("pat"), cmp: v["cmp"].as_u64().map(|c| c as u8).unwrap_or(v["ci"].as_bool().unwrap_or(false) as u8) },
             "pop_front" => QOp::PopFront,
             "chunk_mut" => QOp::ChunkMut { n: v["n"].as_u64().unwrap_or(0) as usize },
+            "unread_last_run" => QOp::Unread,
+            "quiet" => QOp::Quiet,
             "swap_with" => QOp::Swap,
             "replace_with" => QOp::ReplaceWithOther,
             _ => QOp::IsEmpty,
@@ -136,16 +145,19 @@ struct Sim {
     other: BufferQueue,
     m: VecDeque<String>,
     mo: VecDeque<String>,
+    /// every string that the history pushes as "shared", concatenated in push order: the pushed
+    /// tendrils are slices of this ONE allocation (appending to a parent after a slice was taken
+    /// would copy it, and the slices would share nothing)
     parent: StrTendril,
+    next_off: u32,
+    last_run: Option<StrTendril>,
 }
 
-fn mk(parent: &mut StrTendril, s: &str, shared: bool) -> StrTendril {
+fn mk(sim: &mut Sim, s: &str, shared: bool) -> StrTendril {
     if shared && !s.is_empty() {
-        // append to a long-lived parent and take the adjacent slice: consecutive shared pushes
-        // produce adjacent slices of one buffer
-        let off = parent.len32();
-        parent.push_slice(s);
-        parent.subtendril(off, s.len() as u32)
+        let off = sim.next_off;
+        sim.next_off += s.len() as u32;
+        sim.parent.subtendril(off, s.len() as u32)
     } else {
         StrTendril::from_slice(s)
     }
@@ -174,8 +186,22 @@ fn model_next(m: &mut VecDeque<String>) -> Option<char> {
     Some(c)
 }
 
+/// A history that contains `QOp::Quiet` has its buffer partition measured only after the last
+/// operation.  The measurement pops every buffer and pushes it back, which would reset whatever a
+/// queue remembers between two calls; in quiet histories only the history's own operations touch
+/// the queue (return values are still compared one by one).
 fn run_ops(ops: &[QOp], stats: &mut Stats) -> Result<u64, Violation> {
-    let mut s = Sim { q: BufferQueue::default(), other: BufferQueue::default(), m: VecDeque::new(), mo: VecDeque::new(), parent: StrTendril::new() };
+    let quiet = ops.iter().any(|o| matches!(o, QOp::Quiet));
+    if quiet {
+        stats.inc("quiet_histories_measured_at_the_end_only");
+    }
+    let mut all_shared = String::new();
+    for op in ops {
+        if let QOp::PushBack { s, shared: true } | QOp::PushFront { s, shared: true } = op {
+            all_shared.push_str(s);
+        }
+    }
+    let mut s = Sim { q: BufferQueue::default(), other: BufferQueue::default(), m: VecDeque::new(), mo: VecDeque::new(), parent: StrTendril::from_slice(&all_shared), next_off: 0, last_run: None };
     // the second queue has some content of its own
     s.other.push_back(StrTendril::from_slice("ot"));
     s.other.push_back(StrTendril::from_slice("her"));
@@ -186,7 +212,7 @@ fn run_ops(ops: &[QOp], stats: &mut Stats) -> Result<u64, Violation> {
         let bad = |what: String| Err(Violation::new("return-value-differs", format!("op #{i} {:?}: {what}", op)));
         match op {
             QOp::PushBack { s: t, shared } => {
-                let b = mk(&mut s.parent, t, *shared);
+                let b = mk(&mut s, t, *shared);
                 s.q.push_back(b);
                 if !t.is_empty() {
                     s.m.push_back(t.clone());
@@ -194,7 +220,7 @@ fn run_ops(ops: &[QOp], stats: &mut Stats) -> Result<u64, Violation> {
                 stats.inc("op_push_back");
             },
             QOp::PushFront { s: t, shared } => {
-                let b = mk(&mut s.parent, t, *shared);
+                let b = mk(&mut s, t, *shared);
                 s.q.push_front(b);
                 if !t.is_empty() {
                     s.m.push_front(t.clone());
@@ -255,7 +281,10 @@ fn run_ops(ops: &[QOp], stats: &mut Stats) -> Result<u64, Violation> {
                 }
                 match &got {
                     Some(SetResult::FromSet(_)) => stats.inc("pop_except_from_member"),
-                    Some(SetResult::NotFromSet(_)) => stats.inc("pop_except_from_run"),
+                    Some(SetResult::NotFromSet(run)) => {
+                        s.last_run = Some(run.clone());
+                        stats.inc("pop_except_from_run")
+                    },
                     None => stats.inc("pop_except_from_empty"),
                 }
                 dg = mix(dg, fnv1a(format!("{:?}", got).as_bytes()));
@@ -382,6 +411,16 @@ fn run_ops(ops: &[QOp], stats: &mut Stats) -> Result<u64, Violation> {
                     return bad(format!("is_empty() returned {}, model {}", s.q.is_empty(), s.m.is_empty()));
                 }
             },
+            QOp::Unread => {
+                if let Some(run) = s.last_run.clone() {
+                    if !run.is_empty() {
+                        s.m.push_front(run.to_string());
+                        s.q.push_front(run);
+                        stats.inc("op_unread_last_run");
+                    }
+                }
+            },
+            QOp::Quiet => {},
             QOp::Swap => {
                 s.q.swap_with(&s.other);
                 std::mem::swap(&mut s.m, &mut s.mo);
@@ -393,29 +432,41 @@ fn run_ops(ops: &[QOp], stats: &mut Stats) -> Result<u64, Violation> {
                 stats.inc("op_replace_with");
             },
         }
-        let snap = snapshot(&s.q);
-        let want: Vec<String> = s.m.iter().cloned().collect();
-        if snap != want {
-            let cat_a: String = snap.concat();
-            let cat_b: String = want.concat();
-            let class = if cat_a != cat_b { "content-differs" } else { "partition-differs" };
-            return Err(Violation::new(class, format!("after op #{i} {:?}: queue buffers {:?}, model {:?}", op, snap, want)));
-        }
-        if snap.iter().any(|b| b.is_empty()) {
-            return Err(Violation::new("empty-buffer-stored", format!("after op #{i} {:?}: queue holds an empty buffer", op)));
+        if !quiet {
+            check_partition(&s, &format!("after op #{i} {:?}", op))?;
         }
     }
+    check_partition(&s, "after the last operation")?;
     Ok(dg)
+}
+
+fn check_partition(s: &Sim, when: &str) -> Result<(), Violation> {
+    let snap = snapshot(&s.q);
+    let want: Vec<String> = s.m.iter().cloned().collect();
+    if snap != want {
+        let cat_a: String = snap.concat();
+        let cat_b: String = want.concat();
+        let class = if cat_a != cat_b { "content-differs" } else { "partition-differs" };
+        let show = |v: &Vec<String>| format!("{:?}", v).chars().take(600).collect::<String>();
+        return Err(Violation::new(class, format!("{when}: queue buffers {}, model {}", show(&snap), show(&want))));
+    }
+    if snap.iter().any(|b| b.is_empty()) {
+        return Err(Violation::new("empty-buffer-stored", format!("{when}: queue holds an empty buffer")));
+    }
+    Ok(())
 }
 
 impl QueueWorld {
     fn gen_ops(&self, rng: &mut Rng, thorough: bool) -> Vec<QOp> {
         let n = if thorough { rng.range(3, 120) } else { rng.range(3, 50) };
         let mut ops = vec![];
+        if rng.chance(1, 2) {
+            ops.push(QOp::Quiet);
+        }
         // keep a rough idea of the queue content so that patterns and sets often hit
         let mut approx = String::new();
         for _ in 0..n {
-            let op = match rng.weighted(&[22, 8, 12, 6, 16, 18, 3, 6, 2, 2, 1]) {
+            let op = match rng.weighted(&[22, 8, 12, 6, 16, 18, 3, 6, 2, 2, 1, 4]) {
                 0 => {
                     let s = rand_string(rng, 10);
                     approx.push_str(&s);
@@ -467,7 +518,8 @@ impl QueueWorld {
                 7 => QOp::ChunkMut { n: rng.range(0, 4) },
                 8 => QOp::IsEmpty,
                 9 => QOp::Swap,
-                _ => QOp::ReplaceWithOther,
+                10 => QOp::ReplaceWithOther,
+                _ => QOp::Unread,
             };
             if !matches!(op, QOp::PushBack { .. } | QOp::PushFront { .. } | QOp::Peek | QOp::IsEmpty) {
                 // our approximation of the content is no longer a prefix; reset it sometimes
@@ -475,7 +527,29 @@ impl QueueWorld {
                     approx.clear();
                 }
             }
+            let retry = match &op {
+                QOp::Eat { pat, .. } if rng.chance(1, 3) => Some((op.clone(), pat.clone())),
+                _ => None,
+            };
             ops.push(op);
+            if let Some((eat, pat)) = retry {
+                // the tokenizers' protocol: an inconclusive `eat`, more input arrives (at the back,
+                // or at the front through document.write), the same `eat` is retried
+                let more = match rng.below(5) {
+                    0 => pat.chars().skip(1).take(3).collect::<String>(),
+                    1 => pat.chars().last().map(|c| c.to_string()).unwrap_or_default(),
+                    2 => "x".to_string(),
+                    3 => pat.clone(),
+                    _ => rand_string(rng, 3),
+                };
+                if rng.chance(1, 2) {
+                    ops.push(QOp::PushBack { s: more, shared: rng.chance(1, 2) });
+                } else {
+                    ops.push(QOp::PushFront { s: more, shared: rng.chance(1, 2) });
+                }
+                ops.push(eat);
+                approx.clear();
+            }
         }
         ops
     }
@@ -587,6 +661,6 @@ impl World for QueueWorld {
         true
     }
     fn expected_probes(&self) -> Vec<&'static str> {
-        vec!["eat_match", "eat_mismatch", "eat_need_more", "eat_match_multi_buffer_queue", "pop_except_from_member", "pop_except_from_run", "op_chunk_mut", "op_swap_with", "eat_asymmetric_closure"]
+        vec!["eat_match", "eat_mismatch", "eat_need_more", "eat_match_multi_buffer_queue", "pop_except_from_member", "pop_except_from_run", "op_chunk_mut", "op_swap_with", "eat_asymmetric_closure", "op_unread_last_run"]
     }
 }
